@@ -240,7 +240,11 @@ static PANICS: Mutex<Vec<String>> = Mutex::new(Vec::new());
 
 fn install_panic_hook() {
     std::panic::set_hook(Box::new(|info| {
-        let msg = format!("{info}");
+        // a panic raised by the harness's own code is a harness error, never a verdict
+        let own = info
+            .location()
+            .is_some_and(|l| l.file().contains("bwsim/src/") || l.file().contains("vendor/reqwest"));
+        let msg = if own { format!("HARNESS: {info}") } else { format!("{info}") };
         PANICS.lock().unwrap_or_else(|e| e.into_inner()).push(msg);
     }));
 }
